@@ -108,6 +108,10 @@ def _seeded(seed):
         'anova': lambda s: teneva.anova(_grid(), _f(_grid()), 2, 1, 1e-3, seed=s),
         'anova2': lambda s: teneva.anova(_grid(), _f(_grid()), 3, 2, 1e-3, seed=s),
         'core_qr_rand': lambda s: teneva.core_qr_rand(_Y(3)[1], 2, True, seed=s),
+        'core_qr_rand.rtl': lambda s: teneva.core_qr_rand(_Y(3)[1], 1, False, seed=s),
+        'cross_act.dr2': lambda s: teneva.cross_act(lambda X: X[:, 0] * X[:, 1] + 1., [_Y(5), _Y(6)], _Y(7, r=1), e=1e-6,
+                                                    nswp=2, dr=2, dr2=1, seed=s),
+        'sample_func.prepared': lambda s: teneva.sample_func(teneva.orthogonalize(_Y(4, (3, 3)), 0), seed=s, cores_are_prepared=True),
         'sample_func': lambda s: teneva.sample_func(_Y(4, (3, 3)), seed=s),
         'cross_act': lambda s: teneva.cross_act(lambda X: X[:, 0] * X[:, 1] + 1., [_Y(5), _Y(6)], _Y(7, r=1), e=1e-6,
                                                 nswp=2, dr=2, seed=s),
@@ -145,6 +149,15 @@ def _defaults():
         'cross.default.m': lambda: teneva.cross(_f, _Y(9, r=1), m=40),
         'cross.default.nswp': lambda: teneva.cross(_f, _Y(9, r=1), nswp=2, dr_min=0, dr_max=0),
         'cross.default.e_cache': lambda: teneva.cross(_f, _Y(9, r=2), e=1e-3, nswp=3, cache={}),
+        # heavy residue: many cache hits, many sweeps, validation data; light victims: tiny runs that any stale counter upsets
+        'cross.default.cache_long': lambda: teneva.cross(_f, _Y(9, r=2), nswp=8, cache={}, m_cache_scale=10 ** 6, dr_min=0, dr_max=0,
+                                                         I_vld=_grid()[::3], y_vld=_f(_grid()[::3])),
+        'cross.default.tiny': lambda: teneva.cross(lambda I: 1.0 / (1.0 + np.asarray(I) @ np.array([1.0, 1.0])), space.tt([3, 3], [1, 1, 1], 'gen', 0, tag=66),
+                                                   nswp=3, dr_min=1, dr_max=1),
+        'cross.default.tiny_e': lambda: teneva.cross(lambda I: 1.0 / (1.0 + np.asarray(I) @ np.array([1.0, 1.0, 1.0])), space.tt([3, 3, 3], [1, 1, 1, 1], 'gen', 0, tag=66),
+                                                     e=1e-14, nswp=4, dr_min=1, dr_max=1),
+        'als.default.long': lambda: teneva.als(grid, _f(grid), _Y(9, r=2), nswp=6, I_vld=grid[::2], y_vld=_f(grid[::2]), e_vld=1e-30),
+        'als.default.tiny': lambda: teneva.als(space.grid_array([2, 2]), np.array([1., 2., 3., 5.]), space.tt([2, 2], [1, 1, 1], 'gen', 0, tag=67), nswp=2),
         'als.default': lambda: teneva.als(grid, _f(grid), _Y(9, r=2), nswp=2),
         'als.default.vld': lambda: teneva.als(grid, _f(grid), _Y(9, r=1), nswp=3, I_vld=grid[::2], y_vld=_f(grid[::2]), e_vld=1e-2),
         'als_func.default': lambda: teneva.als_func(X, _f(grid), _Y(10, (3, 3, 3), 2), -1., 1., nswp=2, thr_pow=0.),
